@@ -58,6 +58,13 @@ class Ctx:
                     m = repo.find_method(top.cls, parts[1])
                     if m is not None:
                         return m.node
+            if len(parts) == 2 and parts[0][:1].isupper():
+                # ClassName.method(...) (static / class method called through the class)
+                for ci in repo.classes.values():
+                    if ci.name == parts[0]:
+                        m = repo.find_method(ci, parts[1])
+                        if m is not None:
+                            return m.node
             for c in cands:
                 if c in repo.funcs:
                     return repo.funcs[c].node
@@ -144,11 +151,49 @@ class Ctx:
             return fn(self, *args, **kw)
         except AnalysisError as e:
             msg = str(e)
-            if msg.startswith(('function anchor', 'class anchor', 'module ', 'fold: no module', 'no package')) \
-                    or 'is not defined' in msg:
+            if msg.startswith(('module ', 'fold: no module', 'no package')):
                 raise
+            if msg.startswith(('function anchor', 'class anchor')) or 'is not defined' in msg:
+                # a vanished PRIMARY anchor (named by the property itself) is
+                # fatal; helpers and tables the rules found on their own may
+                # legitimately be renamed / restructured: undecided
+                if self._is_primary(msg):
+                    raise
             self.undecided(rule, construct or getattr(fn, '__name__', 'rule group'), msg)
             return None
+
+    def _primary_names(self):
+        if getattr(self, '_primary', None) is None:
+            import json as _json, os as _os, re as _re
+            names = set()
+            here = _os.path.dirname(_os.path.dirname(_os.path.abspath(__file__)))
+            try:
+                for line in open(_os.path.join(here, 'properties.jsonl')):
+                    d = _json.loads(line)
+                    if d.get('id') != self.prop:
+                        continue
+                    for m in d.get('anchors', {}).get('mechanism', []):
+                        for piece in _re.split(r'[,]\s*', m.get('where', '')):
+                            if ':' in piece:
+                                for nm in _re.split(r'[/\s]+', piece.split(':', 1)[1]):
+                                    nm = nm.strip()
+                                    if nm:
+                                        names.add(nm)
+                                        names.add(nm.split('.')[-1])
+            except OSError:
+                pass
+            self._primary = names
+        return self._primary
+
+    def _is_primary(self, msg):
+        import re as _re
+        m = _re.search(r"anchor '([^']+)'", msg) or _re.search(r"fold: (\S+) is not defined", msg)
+        if not m:
+            return True
+        spec = m.group(1).split(':')[-1]
+        last = spec.split('.')[-1]
+        prim = self._primary_names()
+        return spec in prim or last in prim
 
     def floor(self, what, found, minimum):
         """Anchor floor: fewer instances than confirmed by hand means the
